@@ -98,9 +98,9 @@ func kfRun(in []byte) (interface{}, error) {
 				conf.Options.FilterKeyWhitelist, conf.Options.FilterKeyBlacklist = nil, nil
 				switch mode {
 				case "white":
-					conf.Options.FilterKeyWhitelist = []string{"ok"}
+					conf.Options.FilterKeyWhitelist = []string{"ok:a-prefix-longer-than-any-key", "ok"} // (the first prefix never matches: lists are scanned in order)
 				case "black":
-					conf.Options.FilterKeyBlacklist = []string{"no"}
+					conf.Options.FilterKeyBlacklist = []string{"no:a-prefix-longer-than-any-key", "no"}
 				}
 				args := kfArgs(&c, "ok", "no")
 				var want [][]byte
@@ -134,9 +134,9 @@ func kfRun(in []byte) (interface{}, error) {
 	for _, mode := range []string{"white", "black"} {
 		conf.Options.FilterKeyWhitelist, conf.Options.FilterKeyBlacklist = nil, nil
 		if mode == "white" {
-			conf.Options.FilterKeyWhitelist = []string{"ok"}
+			conf.Options.FilterKeyWhitelist = []string{"ok:a-prefix-longer-than-any-key", "ok"} // (the first prefix never matches: lists are scanned in order)
 		} else {
-			conf.Options.FilterKeyBlacklist = []string{"no"}
+			conf.Options.FilterKeyBlacklist = []string{"no:a-prefix-longer-than-any-key", "no"}
 		}
 		var wg sync.WaitGroup
 		var mu sync.Mutex
@@ -176,7 +176,7 @@ func kfRun(in []byte) (interface{}, error) {
 		res.Evaluations += 8 * 20 * len(cfg.Cases)
 	}
 	// commands outside the table (not key-addressed for the tool) are forwarded unchanged
-	conf.Options.FilterKeyWhitelist = []string{"ok"}
+	conf.Options.FilterKeyWhitelist = []string{"ok:a-prefix-longer-than-any-key", "ok"} // (the first prefix never matches: lists are scanned in order)
 	for _, cmd := range []string{"zunionstore", "eval", "publish", "flushall", "nosuchcmd"} {
 		args := [][]byte{[]byte("no:a"), []byte("no:b")}
 		got, drop, pan := call(cmd, args)
